@@ -67,6 +67,9 @@ class ReadInterp(Interp):
         self.cmp_atoms = {}    # fresh condition atom -> (op, lhs poly, rhs poly)
         self._breaks = []      # (in then-branch?, indicator) of conditional breaks seen while evaluating a loop body
         self.free_syms = set() # symbols standing for loop-exit values that a later guard may pin down
+        self.charges = []      # (read primitive, bytes, "pre"|"post"): was the frame's budget charged before the read?
+        self.path_atoms = []   # (condition atom, truth) assumed on the branch being evaluated
+        self.ge = []           # polynomials known to be >= 0 at the current point (successful checked_sub, surviving comparisons)
 
     def fresh(self, prefix="n"):
         self.nsym += 1
@@ -187,6 +190,7 @@ class ReadInterp(Interp):
         if isinstance(v, ErrVal):
             raise Diverge()
         if isinstance(v, tuple) and v and v[0] == "checked":
+            self.ge.append(v[1])          # the subtraction did not underflow
             return v[1]
         return v
 
@@ -236,6 +240,8 @@ class ReadInterp(Interp):
         base_env = dict(fr.env)
         base_known = dict(self.known)
         base_alias = dict(self.alias)
+        base_ge = list(self.ge)
+        base_pa = list(self.path_atoms)
         c0 = self.consumed
         r0 = len(self.reads)
 
@@ -243,6 +249,8 @@ class ReadInterp(Interp):
             fr.env = dict(base_env)
             self.known = dict(base_known)
             self.alias = dict(base_alias)
+            self.ge = base_ge + self._ge_facts(ind, fn is then_fn)
+            self.path_atoms = base_pa + self._branch_atom(ind, fn is then_fn)
             self.consumed = c0
             try:
                 v = fn()
@@ -258,19 +266,23 @@ class ReadInterp(Interp):
                 return None
             rd = self.reads[r0:]
             del self.reads[r0:]
-            return (v, self.consumed, fr.env, self.known, self.alias, rd)
+            return (v, self.consumed, fr.env, self.known, self.alias, rd, self.ge)
         a = run(then_fn)
         b = run(else_fn)
+        self.path_atoms = base_pa
         if a is None and b is None:
             fr.env, self.known, self.alias, self.consumed = base_env, base_known, base_alias, c0
+            self.ge = base_ge
             raise Diverge()
         if a is None or b is None:
-            v, self.consumed, fr.env, self.known, self.alias, rd = a or b
+            v, self.consumed, fr.env, self.known, self.alias, rd, self.ge = a or b
             self.reads.extend(rd)
             self.learn(fr, ind, then_survived=(a is not None))
             return v
-        v1, c1, env1, k1, al1, rd1 = a
-        v2, c2, env2, k2, al2, rd2 = b
+        v1, c1, env1, k1, al1, rd1, ge1 = a
+        v2, c2, env2, k2, al2, rd2, ge2 = b
+        keys2 = {q.key() for q in ge2}
+        self.ge = [q for q in ge1 if q.key() in keys2]
         self.consumed = ind * c1 + ind_not(ind) * c2
         if rd1 or rd2:
             self.reads.append(("cond", repr(ind), rd1, rd2))
@@ -294,6 +306,45 @@ class ReadInterp(Interp):
             return mix(ind, v1, v2)
         except Unsupported:
             return Opaque("mixed")
+
+    @staticmethod
+    def _branch_atom(ind, truth):
+        atoms = ind.atoms()
+        if len(atoms) != 1:
+            return []
+        (atom,) = atoms
+        if len(ind.m) == 1 and ind.m.get((frozenset([atom]), None)) == 1:
+            return [(atom, truth)]
+        if len(ind.m) == 2 and ind.m.get((frozenset(), None)) == 1 and ind.m.get((frozenset([atom]), None)) == -1:
+            return [(atom, not truth)]
+        return []
+
+    def _ge_facts(self, ind, truth):
+        """What a comparison recorded as a condition atom says on the branch where it is `truth`: polynomials that are >= 0."""
+        atoms = ind.atoms()
+        if len(atoms) != 1:
+            return []
+        (atom,) = atoms
+        info = self.cmp_atoms.get(atom)
+        if not info:
+            return []
+        if len(ind.m) == 2 and ind.m.get((frozenset(), None)) == 1 and ind.m.get((frozenset([atom]), None)) == -1:
+            truth = not truth          # the indicator is `1 - atom`
+        elif not (len(ind.m) == 1 and ind.m.get((frozenset([atom]), None)) == 1):
+            return []
+        op, a, b = info
+        d = a - b
+        if (op, truth) in (("Ge", True), ("Lt", False)):
+            return [d]
+        if (op, truth) in (("Gt", True), ("Le", False)):
+            return [d - Poly.const(1)]
+        if (op, truth) in (("Le", True), ("Gt", False)):
+            return [-d]
+        if (op, truth) in (("Lt", True), ("Ge", False)):
+            return [-d - Poly.const(1)]
+        if (op, truth) in (("Eq", True), ("Ne", False)):
+            return [d, -d]
+        return []
 
     def learn(self, fr, ind, then_survived):
         """The surviving branch of `if a != b { diverge }` knows a == b: pin a free loop-exit symbol."""
@@ -384,7 +435,7 @@ class ReadInterp(Interp):
                 atom = ("cond", ("$c%d" % self.ncond,))
                 self.cmp_atoms[atom] = ("Eq", scrut[1], Poly.const(sub["val"]))
                 return Poly.atom(atom), (lambda: None)
-            return Poly.const(1), (lambda: self.bind(fr, sub, scrut[1]))
+            return Poly.const(1), (lambda: (self.ge.append(scrut[1]), self.bind(fr, sub, scrut[1])))
         if p.get("k") == "Variant" and p.get("adt") == "core::option::Option":
             if isinstance(scrut, PathVal):
                 a = ("some", scrut.path)
@@ -401,6 +452,14 @@ class ReadInterp(Interp):
             return ind, (lambda: (binder(), fr.env.__setitem__(p["var"]["id"], scrut)))
         if p.get("k") == "Variant" and p.get("adt") == "core::option::Option" and not isinstance(scrut, PathVal) and self.opt_cases(scrut) is not None:
             return super().match_ind(fr, scrut, pat)        # a computed Option (a constructor / helper picked by an earlier match)
+        if p.get("k") == "Variant" and p.get("adt") == "core::result::Result" and isinstance(scrut, (BufVal, Poly)):
+            # on the read side `Ok(x)` is x itself (a fallible wrapper around one decoded value): the Ok arm sees the value,
+            # the Err arm an error value; which arm runs is an unknown condition
+            self.ncond += 1
+            ind = Poly.atom(("cond", ("$c%d" % self.ncond,)))
+            if p["variant"] == "Ok":
+                return ind, (lambda: self.bind_value(fr, p, scrut))
+            return ind, (lambda: self.bind_value(fr, p, ErrVal()))
         if p.get("k") == "Const" or not isinstance(scrut, PathVal) and p.get("k") == "Variant":
             self.ncond += 1
             return Poly.atom(("cond", ("$c%d" % self.ncond,))), (lambda: None)
@@ -978,6 +1037,7 @@ class ReadInterp(Interp):
             for a in args:
                 self.eval_quiet(fr, a)
             sym = self.fresh("n")
+            self.charges.append((res, prim, self._charge_status(fr, prim)))
             self.consumed = self.consumed + Poly.const(prim)
             self.reads.append(("call", res, [("read_exact", str(prim))], sym[0]))
             return g_val(sym)
@@ -1074,6 +1134,30 @@ class ReadInterp(Interp):
         if local and any(("::%s" % a["name"]) in out_ty and a["kind"] == "enum" for a in self.F.data["adts"]):
             return PathVal(self.fresh("e"))
         return Opaque("call %s" % res)
+
+    def _charge_status(self, fr, size):
+        """"pre": on this path it is already established (by a successful checked_sub or a comparison that refused the other case)
+        that header.remaining_len covers the bytes consumed so far plus the `size` about to be read -- a frame too short for them
+        is refused before the transport is touched; "post": it is not."""
+        try:
+            target = self.resolve(g_val(("header", "remaining_len")) - self.consumed - Poly.const(size))
+        except Unsupported:
+            return "post"
+        for q in self.ge:
+            try:
+                d = self.resolve(target - q)
+            except Unsupported:
+                continue
+            for atom, truth in self.path_atoms:
+                d = d.subst_atom(atom, truth)
+                if truth and atom[0] == "is":
+                    for other in list(d.atoms()):
+                        if other[0] == "is" and other[1] == atom[1] and other != atom:
+                            d = d.subst_atom(other, False)       # the same place cannot be another variant
+            c = d.const_value()
+            if c is not None and c >= 0:
+                return "pre"
+        return "post"
 
     def buf_len(self, fr, e):
         import re
